@@ -197,8 +197,8 @@ func (a *Real32) Reset() {
 // Set the state to b. This includes the value and all derivatives.
 func (a *Real32) Set(b ConstScalar) {
   a.Value = b.GetFloat32()
-  a.Order = b.GetOrder()
   a.Alloc(b.GetN(), b.GetOrder())
+  a.Order = b.GetOrder()
   if a.Order >= 1 {
     for i := 0; i < b.GetN(); i++ {
       a.Derivative[i] = float32(b.GetDerivative(i))
@@ -214,8 +214,8 @@ func (a *Real32) Set(b ConstScalar) {
 }
 func (a *Real32) SET(b *Real32) {
   a.Value = b.GetFloat32()
-  a.Order = b.GetOrder()
   a.Alloc(b.GetN(), b.GetOrder())
+  a.Order = b.GetOrder()
   if a.Order >= 1 {
     for i := 0; i < b.GetN(); i++ {
       a.Derivative[i] = float32(b.GetDerivative(i))
